@@ -4,7 +4,7 @@
    Emitting = TRUE the final state of every behaviour is printed ([env, obs]) and replayed on the real application.  *)
 EXTENDS AppRun, Json, TLC
 
-CONSTANTS Apps, Catching, Verbs, MCLines, Pres, MaxListeners, ListenerKinds, ListenerValues, OutValues, OutKinds, MCScopes, MCRoutes, MCExits, Emitting
+CONSTANTS Apps, Catching, Verbs, MCLines, Pres, MaxListeners, ListenerKinds, ListenerValues, OutValues, OutKinds, MCScopes, MCRoutes, MCExits, MCIos, Emitting
 
 VARIABLE st
 
@@ -33,6 +33,8 @@ NoKinds == {}
 NoValues == {}
 
 RoutesAll == {"object", "factory", "method"}
+IoOk == {"ok"}
+IoBoth == {"ok", "fail"}
 RoutesOne == {"object"}
 RoutesSix == {"object", "factory", "method", "callback2", "callback3", "callbackv", "factory_fn", "factory_class", "factory_method",
               "factory_partial", "factory_callable"}
@@ -50,10 +52,11 @@ ScopesTwo == {"top", "indent"}
 ScopesTop == {"top"}
 \* one initial state per environment of the product (nested quantifiers: the product itself is never built as a set)
 Init == \E a \in Apps, c \in Catching, v \in Verbs, ln \in MCLines, p \in Pres, ls \in ListenerSeqs, o \in Outcomes, sc \in MCScopes,
-             hr \in MCRoutes, ex \in MCExits :
+             hr \in MCRoutes, ex \in MCExits, iof \in MCIos :
           /\ ~(ln \in {"nosuch", "empty"} /\ a = "default")
+          /\ ~(iof = "fail" /\ a = "default")                      \* (only the plain application's factory is ours to break)
           /\ st = Start([app |-> a, catch |-> c, verb |-> v, line |-> ln, pre |-> p, listeners |-> ls, outcome |-> o, scope |-> sc,
-                        hroute |-> hr, exit |-> ex])
+                        hroute |-> hr, exit |-> ex, io |-> iof])
 CreateIO == st.phase = "start" /\ st' = Step(st)
 PreResolve == st.phase = "ioReady" /\ st' = Step(st)
 Resolve == st.phase = "preResolved" /\ st' = Step(st)
